@@ -253,6 +253,9 @@ func genSkip(r *rand.Rand) input {
 		return out
 	}
 	b := r.Intn(nblocks)
+	for b == hidden { // the carrier of an injected resource must be displayed, or it is never loaded
+		b = r.Intn(nblocks)
+	}
 	blocks2 := append([]string{}, blocks...)
 	var injHTML, construct string
 	switch r.Intn(12) {
@@ -263,10 +266,10 @@ func genSkip(r *rand.Rand) input {
 		d := gen.Pick(r, []string{"width: bogus", "color: notacolor", "margin: 1px 2px 3px 4px 5px", "display: ruby-text", "font-size: -3px", "border: 1px bogus", "transform: spin(3)", "content: counter()", "grid-template-columns: repeat()"})
 		injHTML, construct = build(insDecl(d), page, blocks, ""), "invalid-value:"+d
 	case 2:
-		s := gen.Pick(r, []string{"@bogus { p { display: none } }", "@unknown x y;", "@supports (x) { }", "@bogus;"})
+		s := gen.Pick(r, []string{"@bogus { p { display: none } }", "@unknown x y { .k0 { display: none } }", "@supports (x) { }", "@-x-bogus { }"})
 		injHTML, construct = build(insRule(s), page, blocks, ""), "unknown-at-rule:"+s
 	case 3:
-		s := gen.Pick(r, []string{"p..x { display: none }", "p:unknown-pseudo { display: none }", "div >> p { display: none }", "[ { display: none }", "p::bogus { display: none }", ":nth-child(x) { display: none }"})
+		s := gen.Pick(r, []string{"p..x { display: none }", "p:unknown-pseudo { display: none }", "div >> p { display: none }", "p[x=] { display: none }", "p::bogus { display: none }", ":nth-child(x) { display: none }"})
 		injHTML, construct = build(insRule(s), page, blocks, ""), "bad-selector:"+s
 	case 4:
 		s := gen.Pick(r, []string{"p { : red }", "p { color red }", "p { color: red; ; : ; }", "p { 1px }", "p { !important }"})
